@@ -142,7 +142,11 @@ fn ren_expr(e: &E, old: &str, new: &str) -> E {
                 ss.iter()
                     .map(|s| match s {
                         S::Let(p, e) => S::Let(ren_pat(p, old, new), go(e, old, new)),
-                        S::Assign(n, e) => S::Assign(ren(n, old, new), go(e, old, new)),
+                        // an assignee may be `record.field`: only the variable is a user identifier here
+                        S::Assign(n, e) => match n.split_once('.') {
+                            Some((h, f)) => S::Assign(format!("{}.{f}", ren(h, old, new)), go(e, old, new)),
+                            None => S::Assign(ren(n, old, new), go(e, old, new)),
+                        },
                         S::Expr(e) => S::Expr(go(e, old, new)),
                     })
                     .collect(),
@@ -272,7 +276,7 @@ fn map_children(e: &E, f: &mut dyn FnMut(&E, &'static str) -> E) -> E {
         E::Lambda(ps, b) => E::Lambda(ps.clone(), Box::new(f(b, "lambda_body"))),
         E::Tuple(v) => E::Tuple(v.iter().enumerate().map(|(i, x)| f(x, if i == 0 { "tuple_first_element" } else { "tuple_element" })).collect()),
         E::Proj(a, i) => E::Proj(Box::new(f(a, "projected")), *i),
-        E::Record(fs) => E::Record(fs.iter().map(|(k, v)| (k.clone(), f(v, "field_value"))).collect()),
+        E::Record(fs) => E::Record(fs.iter().map(|(k, v)| (k.clone(), f(v, if k == "<-" { "record_update_base" } else { "field_value" }))).collect()),
         E::Field(a, n) => E::Field(Box::new(f(a, "projected")), n.clone()),
         E::Mem(a, s) => E::Mem(Box::new(f(a, "argument")), *s),
         E::Delay(n, a, t, s) => {
@@ -296,6 +300,8 @@ fn annotate(p: &Prog, k: u64) -> Option<(Prog, String)> {
         E::Call(n, _, _) => float_fns.contains(n) && !["mkadd", "mkcounter", "gc", "gadd"].contains(&n.as_str()),
         _ => false,
     };
+    // the dsp input and the float locals of the aggregate family (`p<digits>`)
+    let is_float_var = |e: &E| matches!(e, E::Var(n) if n == "x" || (n.starts_with('p') && n.len() > 1 && n[1..].chars().all(|c| c.is_ascii_digit())));
     let mut counter = 0u64;
     let mut what = String::new();
     let mut items = vec![];
@@ -326,6 +332,23 @@ fn annotate(p: &Prog, k: u64) -> Option<(Prog, String)> {
                                         what = format!("let {n}");
                                         changed = true;
                                         S::Let(Pat::Var(format!("{n}:float")), e.clone())
+                                    } else {
+                                        s.clone()
+                                    }
+                                }
+                                // a record literal of floats: the agreeing record type, keys in the written order and reversed
+                                S::Let(Pat::Var(n), e @ E::Record(fs)) if !n.contains(':') && !fs.is_empty() && fs.iter().all(|(k, v)| k != "<-" && k != ".." && (is_float_expr(v) || is_float_var(v))) => {
+                                    let me = counter;
+                                    counter += 2;
+                                    if k == me || k == me + 1 {
+                                        let mut keys: Vec<&str> = fs.iter().map(|(k, _)| k.as_str()).collect();
+                                        if k == me + 1 {
+                                            keys.reverse();
+                                        }
+                                        let ty = keys.iter().map(|k| format!("{k}:float")).collect::<Vec<_>>().join(", ");
+                                        what = format!("let {n} (record type, keys {})", if k == me { "as written" } else { "reversed" });
+                                        changed = true;
+                                        S::Let(Pat::Var(format!("{n}:{{{ty}}}")), e.clone())
                                     } else {
                                         s.clone()
                                     }
